@@ -294,7 +294,18 @@ func runC19PollQ(e *sim.Env) {
 			a := adds[id]
 			d, delivered := deliveredAt[id]
 			// added strictly before the poll's decision instant, still queued when it answered empty
-			if a.ret >= 0 && a.ret < pl.end-slack && (!delivered || d > pl.end) {
+			// (with two polls in progress the packet may already be in the hands of the other one, which
+			// took it and is stalled on its way out: the poll that delivered it must not have been in
+			// progress while this one was)
+			taker := false
+			if delivered {
+				for _, q := range polls {
+					if contains(q.ids, id) && q.start < pl.end {
+						taker = true
+					}
+				}
+			}
+			if a.ret >= 0 && a.ret < pl.end-slack && (!delivered || d > pl.end) && !taker {
 				e.Violate("C19/empty-while-queued", "pollq",
 					"poll [%d,%d] answered empty although packet %d was queued since t=%d (delivered t=%d)", pl.start, pl.end, id, a.ret, d)
 			}
